@@ -93,7 +93,7 @@ C04(g) == LET chk(c) ==
                 ELSE IF ~(c.sql.param.read.pg_ok /\ c.sql.param.read.nplace = Len(c.sql.param.params)
                           /\ Q!ParamsOf(c.sql.param.read.ast) = [i \in 1..Len(c.sql.param.params) |-> i])
                      THEN <<Fail("C04", c, "placeholders and parameters do not correspond one to one")>>
-                ELSE IF Q!SameAst(Q!Subst(c.sql.param.read.ast, c.sql.param.params), c.sql.inline.read.ast) THEN <<>>
+                ELSE IF Q!SameAst(Q!NormBetween(Q!Subst(c.sql.param.read.ast, c.sql.param.params)), Q!NormBetween(c.sql.inline.read.ast)) THEN <<>>
                 ELSE <<Fail("C04", c, "substituting the parameters does not give the inline predicate")>>
           IN [i \in DOMAIN g.cases |-> chk(g.cases[i])]
 
